@@ -176,6 +176,21 @@ CHECKS["C20"] = dict(
     note="Flow VALUES are not demanded (the statement is relational). Distances must be pseudo-metrics. Swap distance "
          "exhaustive for n<=5 (6 thorough) plus identity-rooted n=7.")
 
+CHECKS["C13"] = dict(
+    category="model_checking", design_ref="DESIGN.md section 2 (C13)",
+    technique="index arithmetic of the kernels modelled in TLA+ (pair table, stored values, frequency-table index) and "
+              "checked by TLC; the real kernels executed under numba bounds checking on the extreme inputs of the "
+              "statement, IndexError = violation",
+    text="PairIndex.tla proves the pair-table index stays in range and never aliases for every cell value incl. "
+         "self-play (and shows the violation without the guard); IBL.tla StoreOK and RevMove.tla TableIdx bound every "
+         "stored value/table index of the designs. The kernels (both decoders, seven objectives, error counter, plan "
+         "length, game decoding, tour length, both move kernels for every i<j up to the last index, QAP objective) run "
+         "with NUMBA_BOUNDSCHECK=1 on one-item/one-bin, every-item-in-its-own-bin, storage-edge, self-play (last team), "
+         "all-self, extreme-value and random inputs.",
+    note="Negative indices wrap silently even under bounds checking (caught only through value clauses). Controller "
+         "and ODE kernels are covered by the C10/C16 drivers' own runs, not here. One genuine defect (self-play pair "
+         "index) was found and fixed (d589596).")
+
 NOT_YET = {
 }
 
